@@ -102,7 +102,8 @@ CHECKS = {
              "c04_calls_in_a_template_body_are_expanded_after_substitution: a template whose body holds calls to other templates "
              "with plain names and arguments gives the body with its parameters substituted and every call replaced by its "
              "result (one trailing line break of each such argument dropped: the known finding), also compared with Wtp.expand "
-             "on 400 generated cases per quick run. "
+             "on 400 generated cases per quick run; c04_two_levels_of_calls combines the two (calls in the arguments of a call whose "
+             "template has calls in its body), which is what the nested correspondence runs on. "
              "PARTIAL: beyond these fragments (parameters inside the arguments of calls in bodies, deeper nesting, a template "
              "inside its own arguments, links) equality with the independent MediaWiki reference semantics is decided per run by harness/gen_wt.py:Ref, "
              "not by a refinement theorem.",
